@@ -858,6 +858,9 @@ func (c *FnCtx) execFor(x *ast.ForStmt, st *State, label string) Outs {
 	if x.Init != nil {
 		st = c.exec(x.Init, st).normal
 	}
+	if c.unroll > 0 {
+		return c.unrollFor(x, st, label)
+	}
 	invs := c.loopInvariants(x)
 	c.checkInvariants(invs, x, st, "init", x.Pos())
 	li := c.scanWrites([]ast.Node{x.Cond, x.Body, x.Post})
@@ -912,6 +915,9 @@ func (c *FnCtx) execFor(x *ast.ForStmt, st *State, label string) Outs {
 }
 
 func (c *FnCtx) execRange(x *ast.RangeStmt, st *State, label string) Outs {
+	if c.unroll > 0 {
+		return c.unrollRange(x, st, label)
+	}
 	xt := c.typeOf(x.X)
 	invs := c.loopInvariants(x)
 	keyObj, valObj := c.rangeVar(x.Key, x.Tok), c.rangeVar(x.Value, x.Tok)
@@ -1166,7 +1172,7 @@ func (c *FnCtx) execRangeString(x *ast.RangeStmt, st *State, label string, invs 
 	define func(*State, types.Object, ast.Expr, string), finish func(*State, Outs) Outs) Outs {
 	s := c.name(st, "rstr", c.eval(x.X, st), sString)
 	ln := "(blen " + s + ")"
-	st.addFact("(>= " + ln + " 0)")
+	c.blenFacts(st, s)
 	st.ghost["idx"] = "0"
 	if keyObj != nil {
 		define(st, keyObj, x.Key, "0")
